@@ -11,8 +11,8 @@
 //!     sc     : `emptysc` (the mesh has no triangle left, op skipped) | `panic` | <state>
 //! state = V nv coords I ni idx F flags A <root aabb mins maxs> Q <q> B <n> <leaf boxes> H <h> D <derived> L <lit> G <der>
 //!     q = 1 iff the QBVH equals (node for node) the QBVH of the fresh builds; after a `sc` (which transforms the tree in place:
-//!         a fresh build on non-uniformly scaled triangles may split differently) and until the next operation that always
-//!         rebuilds (`tv`, `app`) the tree is judged through `B` and `H` only and q = 1
+//!         a fresh build on non-uniformly scaled triangles may split differently) and until the next operation that rebuilds
+//!         it (`tv`, `app`, a `sf` that changes the number of triangles) the tree is judged through `B` and `H` only and q = 1
 //!     B   = for every triangle id (= proxy id) the box stored in its leaf slot (`x` if the proxy designates no leaf slot)
 //!     h = 1 iff the tree is a bounding hierarchy of these leaves: every triangle is reached exactly once from the root, every
 //!         leaf slot points back to its proxy, the box of every inner slot is the merge of the non-empty slots of its child,
@@ -255,10 +255,13 @@ macro_rules! dim_impl {
                 for op in &ops {
                     match op {
                         RawOp::Sf(f) => {
+                            let prev_len = mesh.indices().len();
                             let r = catch_unwind(AssertUnwindSafe(|| mesh.set_flags(flags(*f))));
                             match r {
                                 Err(_) => { out.push("panic".into()); break; }
                                 Ok(res) => {
+                                    // `set_flags` rebuilds the QBVH from scratch exactly when the number of triangles changed
+                                    if mesh.indices().len() != prev_len { loose = false; }
                                     let rs = match res {
                                         Ok(()) => "ok".to_string(),
                                         Err(TopologyError::BadTriangle(t)) => format!("badtri {}", t),
